@@ -107,9 +107,11 @@ fn grammar_family(grammar: &str) -> &str {
 
 fn exercise(file: &str, grammar: &str, text: &str, input: &Value, sink: &Sink) {
     core::slot_write(&json!({"file": file, "text": text}).to_string());
-    sink.execs(2);
+    sink.execs(3);
     let scan = librun::run(&Input { files: vec![(file.to_string(), text.to_string())], ..Default::default() });
     judge(&scan, "scan", grammar, text, input, sink);
+    let list = librun::run(&Input { files: vec![(file.to_string(), text.to_string())], list_only: true, ..Default::default() });
+    judge(&list, "list", grammar, text, input, sink);
     let diff = librun::run(&Input { files: vec![(file.to_string(), text.to_string())], diff: Some(cli::new_file_diff(file, text)), ..Default::default() });
     judge(&diff, "diff", grammar, text, input, sink);
     core::slot_clear();
@@ -274,7 +276,7 @@ fn hostile_check(pair: &(Vec<u8>, Vec<u8>, bool, u8), sink: &Sink) {
 }
 
 pub fn run(cfg: &Cfg, sink: &Arc<Sink>) -> Report {
-    let mut report = Report::new("(1) token soups: every sequence of ≤3 (thorough ≤4) tokens, and one token longer over the core tokens (delimiters, tag fragments, newline, quote), over the grammar's comment delimiters, tag fragments, a rule-laden start tag, quotes, newline, NBSP, combining mark and emoji, per grammar, run in scan mode (parse + all validators) and diff mode (all-lines-added diff); (2) every single-token insertion, deletion and replacement at every token boundary of a seed file per registered suffix (thorough: every pair of insertions); (3) real git diffs between every pair of ≤2-line files over lines that look like diff syntax; oracle: the run returns a report or an error — no panic, abort or hang (10 s watchdog per case, in the supervisor); non-trivial = soups of ≥2 tokens, every mutation, every non-empty diff");
+    let mut report = Report::new("(1) token soups: every sequence of ≤3 (thorough ≤4) tokens, and one token longer over the core tokens (delimiters, tag fragments, newline, quote), over the grammar's comment delimiters, tag fragments, a rule-laden start tag, quotes, newline, NBSP, combining mark and emoji, per grammar, run in scan mode (parse + all validators), list mode and diff mode (all-lines-added diff); (2) every single-token insertion, deletion and replacement at every token boundary of a seed file per registered suffix (thorough: every pair of insertions); (3) real git diffs between every pair of ≤2-line files over lines that look like diff syntax; oracle: the run returns a report or an error — no panic, abort or hang (10 s watchdog per case, in the supervisor); non-trivial = soups of ≥2 tokens, every mutation, every non-empty diff");
     report.assume("aborts and hangs are detected by the supervisor process (main.rs) which replays the cases the dead child was working on");
     let soup_len = cfg.tier.pick(3, 4);
     for kit in KITS {
@@ -283,7 +285,7 @@ pub fn run(cfg: &Cfg, sink: &Arc<Sink>) -> Report {
         let toks2 = toks.clone();
         report.phase(engine::explore(
             &format!("soup {} ({})", kit.grammar, kit.files[0]),
-            &format!("all token sequences of length ≤{soup_len} over {n} tokens × {{scan, diff}}"),
+            &format!("all token sequences of length ≤{soup_len} over {n} tokens × {{scan, list, diff}}"),
             Sequences { alphabet: n as u8, max_len: soup_len, check: move |seq: &[u8], sink: &Sink| soup_check(kit, &toks2, seq, sink) },
             sink,
             cfg.threads,
@@ -295,7 +297,7 @@ pub fn run(cfg: &Cfg, sink: &Arc<Sink>) -> Report {
         let n = core_toks.len();
         report.phase(engine::explore(
             &format!("core soup {} ({})", kit.grammar, kit.files[0]),
-            &format!("all token sequences of length ≤{} over the {n} core tokens × {{scan, diff}}", soup_len + 1),
+            &format!("all token sequences of length ≤{} over the {n} core tokens × {{scan, list, diff}}", soup_len + 1),
             Sequences { alphabet: n as u8, max_len: soup_len + 1, check: move |seq: &[u8], sink: &Sink| soup_check(kit, &core_toks, seq, sink) },
             sink,
             cfg.threads,
